@@ -48,6 +48,9 @@ TARGETS = [
     ("extensions/iter_ext.rs", "IterSorted", "Iter", ["sorted"]),
     ("validators/unique.rs", "ValidateUnique", "Vec", ["is_unique"]),
     ("core/operations/axis.rs", "ArrayAxis", "Array", ["moveaxis", "rollaxis", "swapaxes", "expand_dims", "squeeze"]),
+    # phase 2b
+    ("validators/has_error.rs", "ValidateHasError", "Vec", ["has_error"]),
+    ("core/operations/broadcast.rs", None, "Array", ["broadcast_shape"]),
 ]
 # crate functions OUTSIDE the translated set: a caller takes them as a parameter of the generated definition (signature only is read)
 EXTERNALS = [
@@ -705,6 +708,7 @@ def lean_ty(t):
     if k == "Result": return f"Res {par(lean_ty(t[1]))}"
     if k == "Tuple": return " × ".join(par(lean_ty(x)) for x in t[1])
     if k == "Err": return "Err"
+    if k in ("Repeat", "Padded"): return "_"
     if k == "str": return "String"
     return "_"
 
@@ -1735,6 +1739,10 @@ class FnCtx:
                 impls = self.crate.candidates(ty, name)
                 place = bool(args) and place_root(args[0]) is not None
                 return self.call_crate(impls, name, [(a, env) for a in args], place_recv=place)
+        if segs[-2:] == ["iter", "repeat"] and len(args) == 1:
+            a = self.tr_expr(args[0], env, None)
+            if not a.pure: raise Refuse("`repeat` of an effectful expression")
+            return E(a.term, ("Repeat", a.ty))
         raise Refuse(f"call of `{'::'.join(segs)}`")
 
     EARLY_STOP = {"any", "all", "find", "position", "take", "take_while", "skip_while", "zip", "step_by", "first", "get", "chain", "filter"}
@@ -1759,7 +1767,7 @@ class FnCtx:
             if len(args) != n: raise Refuse(f"`{name}` with {len(args)} arguments")
         # Result receivers first (a computation is consumed directly)
         if k == "Result":
-            if name == "clone": nargs(0); return r
+            if name in ("clone", "as_ref"): nargs(0); return r
             if r.early: raise Refuse(f"`?` inside the receiver of `{name}`")
             if name == "unwrap":
                 nargs(0)
@@ -1767,6 +1775,7 @@ class FnCtx:
             seq = Seq(self); v = seq.val(r)
             if name in ("is_ok", "is_err"):
                 nargs(0); return seq.wrap(E(f"Rs.{'isOk' if name == 'is_ok' else 'isErr'} {par(v)}", BOOL))
+            if name == "err": nargs(0); return seq.wrap(E(f"Rs.resErr {par(v)}", ("Option", ERR)))
             raise Refuse(f"`Result::{name}`")
         seq = Seq(self); v = seq.val(r)
         def arg(i, exp=None): return self.tr_expr(args[i], env, exp)
@@ -1794,6 +1803,11 @@ class FnCtx:
             if name == "get" and k != "Iter": nargs(1); return seq.wrap(E(f"{pv}[{aval(0, USIZE)}]?", ("Option", item)))
             if name == "rev": nargs(0); return seq.wrap(E(f"Rs.rev {pv}", ("Iter", item)))
             if name == "enumerate": nargs(0); return seq.wrap(E(f"Rs.enumerate {pv}", ("Iter", ("Tuple", (USIZE, item)))))
+            if name == "chain" and len(args) == 1:
+                a0 = arg(0)
+                if a0.ty[0] == "Repeat":
+                    # `it.chain(repeat(x))`: endless; only `take(n)` can consume it
+                    return seq.wrap(E(v, ("Padded", unify(item, a0.ty[1], "chain"), par(a0.term))))
             if name in ("zip", "chain"):
                 nargs(1); a = arg(0)
                 if not is_seq(a.ty): raise Refuse(f"`{name}` with {show_ty(a.ty)}")
@@ -1851,6 +1865,9 @@ class FnCtx:
                 if b.pure: return seq.wrap(E(f"Rs.fold {pv} {iv} (fun {bs} =>\n{b.term})", acc))
                 return seq.wrap(E(f"Rs.foldM {pv} {iv} (fun {bs} =>\n{b.term})", acc, False))
             raise Refuse(f"`{name}` on {show_ty(r.ty)}")
+        if k == "Padded":
+            if name == "take": nargs(1); return seq.wrap(E(f"Rs.padTake {par(v)} {r.ty[2]} {aval(0, USIZE)}", ("Iter", r.ty[1])))
+            raise Refuse(f"`{name}` on an endless iterator")
         if k == "HashSet":
             if name == "len": nargs(0); return seq.wrap(E(f"{par(v)}.length", USIZE))
             raise Refuse(f"`HashSet::{name}`")
@@ -1869,6 +1886,17 @@ class FnCtx:
                 nargs(1); a = arg(0, ERR)
                 if a.ty != ERR or not a.pure: raise Refuse("`ok_or` with something that is not an ArrayError")
                 return seq.wrap(E(f"Rs.okOr {pv} {par(a.term)}", ("Result", r.ty[1])))
+            if name == "map_or_else":
+                nargs(2)
+                if args[0][0] != "closure" or args[0][1]: raise Refuse("`map_or_else` default that is not a `|| ..` closure")
+                self.closure_depth += 1
+                try: d = self.tr_expr(args[0][2], env, expected)
+                finally: self.closure_depth -= 1
+                bs, b = closure(1, [r.ty[1]])
+                ty = unify(d.ty, b.ty, "map_or_else")
+                if d.pure and b.pure: return seq.wrap(E(f"Rs.mapOrElse {pv} {par(d.term)} (fun {bs} =>\n{b.term})", ty))
+                if d.early: raise Refuse("`?` inside a closure")
+                return seq.wrap(E(f"Rs.mapOrElse {pv} {par(comp_term(d))} (fun {bs} =>\n{comp_term(b)})", ty, False))
             if name == "map_or":
                 nargs(2); d = arg(0)
                 bs, b = closure(1, [r.ty[1]])
